@@ -3,7 +3,8 @@
 (* (from the sandbox Tree0, isolation active, code as it is) is emitted once as JSON.    *)
 (* With Prune, calls that change neither the file system nor the bookkeeping are only    *)
 (* kept as the last call of a history (elsewhere they are stuttering steps); with         *)
-(* PruneLast not even there (then the shorter history covers the case).                  *)
+(* PruneLast not even there (the shorter history covers the case), except for calls that  *)
+(* the wrapper must refuse on an existing path.                                           *)
 EXTENDS FsIsolationOps, Json
 
 CONSTANTS Depth, AllVias, Prune, PruneLast
@@ -13,10 +14,22 @@ vars == <<fs, cr, hist>>
 
 Init == /\ fs = Tree0 /\ cr = {} /\ hist = <<>>
 
+Changes(r) == r.fs # fs \/ r.cr # cr
+\* a destructive call on an existing path that the wrapper must refuse (one probe per call kind)
+RefusedProbe(o, r) == /\ r.res = "PermissionError" /\ Exists(fs, o.p)
+                      /\ \/ o.op \in OnePathOps
+                         \/ ~o.kw /\ o.q = (IF o.p = "an" THEN "n" ELSE "an")
+
+\* a call on an isolated path that passes the wrapper's check and then fails in the library
+FailsOnCreated(o, r) == /\ r.res \notin {"ok", "PermissionError"} /\ o.p \in cr /\ ~o.kw
+                        /\ o.op \in {"Remove", "Rmdir", "Rmtree", "Rename", "Replace", "Move"}
+
 Next == /\ Len(hist) < Depth
         /\ \E o \in Calls(fs, AllVias) :
              LET r == Eff(o, fs, cr, AsIs) IN
-             /\ (Prune /\ (PruneLast \/ Len(hist) + 1 < Depth)) => (r.fs # fs \/ r.cr # cr)
+             /\ (Prune /\ Len(hist) + 1 < Depth) => Changes(r)
+             /\ (Prune /\ PruneLast /\ Len(hist) + 1 = Depth) =>
+                    (Changes(r) \/ RefusedProbe(o, r) \/ FailsOnCreated(o, r))
              /\ fs' = r.fs
              /\ cr' = r.cr
              /\ hist' = Append(hist, o)
